@@ -205,5 +205,5 @@ def finish_coverage(cov, counters, tier):
 
 
 def replay(env, rep):
-    import json
-    print(json.dumps(rep["features"]))
+    from vf.replay import generic
+    generic(env, rep)
